@@ -847,6 +847,12 @@ fn check_source(fmt: Fmt, game: Game, text: &str, asked: Option<&[(Fmt, Vec<SrcI
         }
         return;
     }
+    if let Some(l) = stderr.lines().find(|l| l.starts_with("error")) {
+        // an error was reported, yet the compile "succeeded": whatever was written is not what was asked
+        stats.bump(&format!("src-{}:error-but-exit-0", fmt.name()));
+        println!("ORACLE-FAIL\tc03 format={} field=error-but-exit-0\tthe compiler reports `{}` and still exits 0 (a file is written)\t{}", fmt.name(), one_line(l), short_input);
+        return;
+    }
     let bytes = match std::fs::read(&out) { Ok(b) => b, Err(_) => {
         println!("ORACLE-FAIL\tc03 format={} field=no-output\texit 0 but no output file\t{}", fmt.name(), short_input); return; } };
     let back = read_file(fmt, game, &bytes);
